@@ -3,6 +3,8 @@ exactly.  See DESIGN.md section C11."""
 from __future__ import annotations
 
 import ast
+import itertools
+from fractions import Fraction as Fr
 
 from ..core import Report, Undecided, AnalysisError
 from ..srcmodel import Model
@@ -22,6 +24,10 @@ ITER = 'odl/solvers/iterative/iterative.py'
 STAT = 'odl/solvers/iterative/statistical.py'
 PGRAD = 'odl/solvers/nonsmooth/proximal_gradient_solvers.py'
 GRAD = 'odl/solvers/smooth/gradient.py'
+
+
+# name of a proximal operator symbol -> the step size it was created with
+PROX_STEPS = {}
 
 
 class SolverHooks(OpHooks):
@@ -55,6 +61,9 @@ class SolverHooks(OpHooks):
                     if k not in self.memo:
                         self.memo[k] = I.opsym('prox[%s,%s]' % (fname, k[2]),
                                                dom, dom, False)
+                        if is_scalar(sigma):
+                            PROX_STEPS['prox[%s,%s]' % (fname, k[2])] = \
+                                to_rat(sigma)
                     return self.memo[k]
                 return Builtin('proximal', prox)
             if name == 'convex_conj':
@@ -365,16 +374,21 @@ def _resume(rep, model):
                     % (tag, n, m, n + m), rel, fn.lineno)
             else:
                 rep.holds('R2', tag, 'state is the iterate alone')
-    # pdhg with x_relax and y passed back
+    # pdhg with x_relax and y passed back, for the relaxation parameters
+    # theta = 1 (default), theta = 0 (no extrapolation) and theta = 1/2
     fn = model.ctx.func(PDHG, 'pdhg')
-    for n, m in ((1, 1), (2, 1), (1, 2)):
-        tag = 'pdhg[%d+%d]' % (n, m)
+    variants = [('', {}), (',theta=0', {'theta': 0}),
+                (',theta=1/2', {'theta': Rat.const(Fr(1, 2))})]
+    for (n, m), (vtag, extra) in itertools.product(
+            ((1, 1), (2, 1), (1, 2)), variants):
+        tag = 'pdhg[%d+%d%s]' % (n, m, vtag)
         try:
             def mk(e, x, xr, y, k):
                 L = e.I.opsym('L', e.X, e.Y, True)
-                return [x, e.fun('f', e.X), e.fun('g', e.Y), L, k], {
-                    'tau': Rat.var('tau'), 'sigma': Rat.var('sigma'),
-                    'x_relax': xr, 'y': y}
+                kw = {'tau': Rat.var('tau'), 'sigma': Rat.var('sigma'),
+                      'x_relax': xr, 'y': y}
+                kw.update(extra)
+                return [x, e.fun('f', e.X), e.fun('g', e.Y), L, k], kw
 
             def b_all(e):
                 x, xr, y = e.vec('x', e.X), e.vec('xr', e.X), e.vec('y', e.Y)
